@@ -346,7 +346,7 @@ theorem zip_map_mul (l : List Nat) (f g : Nat → ℚ) :
 /-- selecting the term of a sum by an optional index -/
 theorem S_select (m : Nat) (o : Option Nat) (c : Nat → ℚ) (ho : ∀ t, o = some t → t < m) :
     S (List.range m) (fun t => if o = some t then c t else 0) =
-      (match o with | some t => c t | none => 0) := by
+      (match (generalizing := false) o with | some t => c t | none => 0) := by
   cases o with
   | none =>
     show S (List.range m) (fun x => if none = some x then c x else 0) = 0
